@@ -105,32 +105,32 @@ Qed.
 (* the optimizer's step: sigma maps r to r' only when EqualObjects said (true, nil) for the
    two dereferenced objects (handleDuplicateFontObject, handleDuplicateImageObject,
    optimizeXObjectForm call it with the dicts / stream dicts themselves, pairs = nil) *)
-Theorem optimizer_subst_preserves : forall g sigma fuel,
+Theorem optimizer_subst_preserves : forall g sigma fuel limit,
   wfg g ->
   (forall r, sigma r <> r ->
      isref (g r) = false /\ isref (g (sigma r)) = false /\
-     EqualObjects fuel g (g (sigma r)) (g r) [] = CT) ->
+     EqualObjects fuel limit g (g (sigma r)) (g r) [] = CT) ->
   forall o, same_unfolding (substg sigma g) (substo sigma o) g o.
 Proof.
-  intros g sigma fuel Hg H o. apply subst_preserves_unfolding.
+  intros g sigma fuel limit Hg H o. apply subst_preserves_unfolding.
   intros r ne. destruct (H r ne) as [H1 [H2 H3]].
   apply sim_ref_of_targets; auto.
-  apply (equal_objects_sound g fuel); auto.
+  apply (equal_objects_sound g limit fuel); auto.
 Qed.
 
 (* ---- page content streams: the duplicate test goes through EqualObjects ---- *)
-Theorem content_dedup_preserves : forall g fuel a b,
-  wfg g -> contentStreamDup fuel g (g a) (g b) = CT ->
+Theorem content_dedup_preserves : forall g fuel limit a b,
+  wfg g -> contentStreamDup fuel limit g (g a) (g b) = CT ->
   forall n, sim n g (ORef a 0) g (ORef b 0).
 Proof.
-  intros g fuel a b Hg H.
+  intros g fuel limit a b Hg H.
   unfold contentStreamDup in H.
   destruct (g a) eqn:Ea; try discriminate. destruct (g b) eqn:Eb; try discriminate.
   destruct (Nat.eqb (length (rawbytes raw)) (length (rawbytes raw0))); try discriminate.
   intro n. apply sim_sym. revert n.
   apply sim_ref_of_targets; try (rewrite Eb; reflexivity); try (rewrite Ea; reflexivity).
   rewrite Ea, Eb.
-  apply (equal_objects_sound g fuel); auto.
+  apply (equal_objects_sound g limit fuel); auto.
   - pose proof (Hg b) as W. rewrite Eb in W. exact W.
   - pose proof (Hg a) as W. rewrite Ea in W. exact W.
 Qed.
